@@ -26,12 +26,16 @@ register('C06', world='w1:W1World', quick=6000, thorough=300000, level='explorat
               "backends and compared with an oracle computed from PGModel's edge list (set comprehension, BFS, brute-force "
               "simple paths). Non-trivial: >=1 successful mutating operation; distinct = distinct event-log digest.",
          assumptions=W1_ASSUME + ["'loop-free' for path-with-hops is the library's own notion: the sub-graph induced by the path's nodes has no cycle"])
-register('C01', world='w1:W1World', quick=5000, thorough=200000, level='exploration',
+register('C01', world='w1:W1World', level='exploration',
+         parts=[{'world': 'w1:W1World', 'quick': 5000, 'thorough': 200000},
+                {'world': 'w2:W2World', 'quick': 900, 'thorough': 40000}],
          rule="one evaluation = one seeded W1 run with a round-trip-heavy mix: graphs built by the history are serialized "
               "(GraphML / JSON node-link) from both stores, the text is parsed independently (lxml/json) and compared with "
               "PGModel, re-imported through one of the four entry points (same or other store, id kept or reassigned), "
               "compared again, re-serialized and validated. 40% of runs arm the file seam (ENOSPC, EIO, short write, "
-              "missing file) with the relaxed oracle. Non-trivial: >=1 successful mutating op (and >=1 fired fault in fault runs).",
+              "missing file) with the relaxed oracle. A second part runs W2 (topology world) with a mix heavy in "
+              "Topology.serialize -> load (string/file, GraphML/JSON, id kept/new) on topology-built slice and substrate "
+              "models, incl. validate_graph() after import. Non-trivial: >=1 successful mutating op (and >=1 fired fault in fault runs).",
          assumptions=W1_ASSUME)
 
 register('C20', level='exploration', world='w1t:W1TWorld',
@@ -96,4 +100,29 @@ register('C02', world='w2:W2World', quick=1800, thorough=100000, level='explorat
          assumptions=W2_ASSUME + ["no schedule or fault enters this property; the simulation contributes state diversity only",
                                   "zero/false/empty field values of the value classes belong to C03 and are not generated",
                                   "names not exercised through set_property and why: see NOT_GENERATED in simfim/w2_props.py"])
-register('C10', world='w2:W2World', quick=1800, thorough=100000, level='exploration', rule='W2', assumptions=W2_ASSUME)
+
+register('C10', world='w2:W2World', quick=1800, thorough=100000, level='exploration',
+         rule=W2_RULE % "C10 oracle: validate() is issued at arbitrary points of experiment-topology histories whose mix is biased to "
+                        "service creation (all slice service types x 0-4 interfaces x site placements x interface kinds) and to "
+                        "setting the constrained properties; accept/reject is compared two-sidedly with a reference evaluated over "
+                        "constraint tables PINNED in the checker; a successful validation must record the inferred site; a "
+                        "validation may change nothing else; L2PTP must never hold a shared port after any connect. "
+                        "Non-trivial: >=1 call changed the model.",
+         assumptions=W2_ASSUME + ["the property is a function of the topology with one side effect; the simulation interleaves it with edits",
+                                  "num_instances is NO_LIMIT for every type in the pinned table, so the per-site instance rule is vacuous"])
+register('C11', world='w2:W2World', quick=1800, thorough=100000, level='exploration',
+         rule=W2_RULE % "C11 oracles: attributes collected from the topology object, and from its serialized model when the slice "
+                        "validates, equal an order-free tally of the abstract state (sets for de-duplicated attributes, multisets "
+                        "for per-resource ones); the PDP request lists exactly those attributes with the right category/type; the "
+                        "accounting summary equals a direct tally. Order is varied by history (creation order, delete/re-add, "
+                        "re-import by the ASM path which renumbers storage) and by the hash seed of the batch. "
+                        "Non-trivial: >=1 call changed the model.",
+         assumptions=W2_ASSUME + ["'mirrored port inside the slice' is the library's definition: the port name is a local_name label of the first peer of a connected interface of a slice node",
+                                  "'sites used' are the sites of non-facility nodes and the sites recorded on services (what the collector documents)"])
+register('C17', world='w2:W2World', quick=1800, thorough=100000, level='exploration',
+         rule=W2_RULE % "C17 oracles: a checkpoint (clone of the topology graph) is taken early; later, slivers of nodes / services / "
+                        "dedicated ports present in both versions are diffed in both directions and compared with a reference diff "
+                        "computed by subtracting the two abstract states (added/removed by name, LABELS/CAPACITIES/USER_DATA/"
+                        "SUB_INTERFACES flags), identical versions must give None, added(old->new) = removed(new->old). "
+                        "Non-trivial: >=1 call changed the model.",
+         assumptions=W2_ASSUME + ["elements are matched by name (as the library documents); SUB_INTERFACES is judged for SmartNIC components and dedicated ports only (the library's scope)"])
